@@ -2,21 +2,19 @@
    path that was not scanned, equal files are together, no class is split, a class that satisfies the
    replication filter is not dropped at any stage.  Statements only.
    Quantification: every hash function H (collision-free on the final keys of the contents present), every
-   configuration c without --transform (all replication modes, roots, --match-links, prefix / suffix
-   sizes, device kinds), every processing / arrival order n WITHOUT read faults (the property speaks
-   about readable files), every scanned table with wf_ids, wf_len, wf_paths (a path scanned twice is
-   the same entry: repeated / overlapping roots).
-   `_partial`: the --transform path (group_transformed) is not covered by a completeness theorem; there
-   C01_transform (soundness) is proved and completeness is only observed by the correspondence check
-   and the partition oracle.  Known findings: K11 (see Props_C01.v), K10 (see Props_C06.v). *)
-From FV Require Import Base ListLib GroupModel GroupProofs GroupProofs2 GroupProofs3 GroupProofs4 GroupWitness.
+   configuration c (all replication modes, roots, --match-links, prefix / suffix sizes, device kinds; the
+   plain path in C03_partition, the --transform path in C03_partition_transform), every processing /
+   arrival order n WITHOUT read faults (the property speaks about readable files; faults are C15), every
+   scanned table with wf_ids, wf_len, wf_paths (a path scanned twice is the same entry: repeated /
+   overlapping roots). *)
+From FV Require Import Base ListLib GroupModel GroupProofs GroupProofs2 GroupProofs3 GroupProofs4 GroupProofs5 GroupWitness.
 Open Scope N_scope.
 
-Theorem C03_partition_partial_except_K11 :
+Theorem C03_partition :
   forall (H : list N -> hash) (T : list N -> option (list N)) (c : gcfg) (n : nd) (scanned : list file),
     wf_nd n -> (forall st f, fails n st f = false) ->
     wf_ids scanned -> wf_len scanned -> wf_paths scanned ->
-    collision_free H c scanned -> ~ K11 c scanned -> transform c = false -> skip_content c = false ->
+    collision_free H c scanned -> transform c = false -> skip_content c = false ->
     let out := group_files H T c n scanned in
     (* (i) every reported file was scanned (and passed the size limits), and occurs once in the whole report *)
     (NoDup (all_files out) /\ forall f, In f (all_files out) -> ok c scanned f) /\
@@ -27,15 +25,30 @@ Theorem C03_partition_partial_except_K11 :
     (* (iv) a file whose class satisfies the final filter is reported: nothing qualifying is dropped at any stage *)
     (forall f, ok c scanned f -> qualifies c scanned f -> exists g, In g out /\ In f (gfiles g)).
 Proof. exact c03_partition. Qed.
-Print Assumptions C03_partition_partial_except_K11.
+Print Assumptions C03_partition.
 
-Theorem C03_K11_witness :
-  exists (H : list N -> hash) (T : list N -> option (list N)) (c : gcfg) (n : nd) (scanned : list file),
-    wf_nd n /\ (forall st f, fails n st f = false) /\ wf_ids scanned /\ wf_len scanned /\ wf_paths scanned /\
-    collision_free H c scanned /\ skip_content c = false /\ transform c = false /\ K11 c scanned /\
-    exists f, ok c scanned f /\ qualifies c scanned f /\ ~ exists g, In g (group_files H T c n scanned) /\ In f (gfiles g).
-Proof. exact k11_witness_c03. Qed.
-Print Assumptions C03_K11_witness.
+(* --transform: classes are the classes of the transform output; a reported entry is the scanned file with its
+   length replaced by the output length (tfile); files whose transform fails are in no group.  The clauses are
+   (i)-(iv) above plus "reported iff the class qualifies" and "a group lists exactly the class". *)
+Theorem C03_partition_transform :
+  forall (H : list N -> hash) (T : list N -> option (list N)) (c : gcfg) (n : nd) (scanned : list file),
+    wf_nd n -> (forall st f, fails n st f = false) ->
+    wf_ids scanned -> wf_paths scanned -> collision_free_T H T scanned -> transform c = true ->
+    let out := group_files H T c n scanned in
+    (NoDup (all_files out) /\
+     forall g f, In g out -> In f (gfiles g) ->
+       exists f0, ok' c scanned f0 /\ hasT T f0 = true /\ f = set_len f0 (glen g) /\ glen g = tlen T f0) /\
+    (forall g f0 f0', In g out -> In (tfile T f0) (gfiles g) -> ok' c scanned f0 -> ok' c scanned f0' ->
+                      T (fdata f0') = T (fdata f0) -> In (tfile T f0') (gfiles g)) /\
+    (forall g g' f0 f0', In g out -> In g' out -> ok' c scanned f0 -> ok' c scanned f0' ->
+                         In (tfile T f0) (gfiles g) -> In (tfile T f0') (gfiles g') ->
+                         T (fdata f0) = T (fdata f0') -> g = g') /\
+    (forall f0, ok' c scanned f0 -> hasT T f0 = true ->
+       ((exists g, In g out /\ In (tfile T f0) (gfiles g)) <-> qualifiesT T c scanned f0)) /\
+    (forall g f0 cl, In g out -> ok' c scanned f0 -> In (tfile T f0) (gfiles g) -> is_classT T c scanned f0 cl ->
+       Permutation.Permutation (gfiles g) (map (tfile T) cl)).
+Proof. exact c03_transform. Qed.
+Print Assumptions C03_partition_transform.
 
 (* filter monotonicity, the reason why intermediate pruning is safe: the replica count is monotone in the
    member set, so a superset of a qualifying class passes the permissive filter *)
@@ -55,17 +68,21 @@ Qed.
 Print Assumptions C03_deduplicate.
 
 (* Non-vacuity: the table of Props_C01 (two equal files + a hard-linked pair that differs in the last
-   byte) satisfies every hypothesis; the pair of copies qualifies and is reported. *)
+   byte) satisfies every hypothesis; the pair of copies qualifies and is reported.  And the former K10 / K11
+   counterexamples, now regression instances: --rf-under 3 on the K11 table reports both pairs (each has 2
+   replicas), --transform --unique on two copies and a third file reports only the third. *)
 Example C03_hypotheses_inhabited :
   wf_nd (nd_of_mode 0) /\ (forall st f, fails (nd_of_mode 0) st f = false) /\ wf_ids ex_files /\ wf_len ex_files /\
-  wf_paths ex_files /\ collision_free toyH ex_cfg ex_files /\ ~ K11 ex_cfg ex_files /\
+  wf_paths ex_files /\ collision_free toyH ex_cfg ex_files /\
   qualifies ex_cfg ex_files (mkf 97 1 6 [1;2;3;4;5;6]).
 Proof.
   assert (Hp : paths_distinct_b ex_files = true) by (vm_compute; reflexivity).
   destruct (paths_distinct_b_sound _ Hp) as [Hnd Hwp].
   split; [exact wf_nd_mode0|]. split; [reflexivity|]. split; [exact (wf_ids_b_sound _ ex_ids)|].
   split; [exact (wf_len_b_sound _ ex_len)|]. split; [exact Hwp|]. split; [exact (cf_b_sound _ _ _ ex_cf)|].
-  split; [exact ex_notK11|].
   exists (class_list ex_cfg ex_files (mkf 97 1 6 [1;2;3;4;5;6])). split; [exact (class_list_is_class _ _ _ Hnd)|].
   vm_compute. reflexivity.
 Qed.
+Example C03_K10_regression :
+  shows (group_files toyH idT k10_cfg (nd_of_mode 0) k10_files) = [(3, [[[47]; [99]]])].
+Proof. exact k10_regression. Qed.
